@@ -123,6 +123,55 @@ HAND_MANIFESTS = [
 ]
 
 
+def _binding_manifests():
+    """Every rule-level binding expanding $in / $in_newline / $out (alone, or through another binding), on build statements with
+    every mix of explicit / implicit / order-only inputs, validations and explicit / implicit outputs: the parser evaluates some
+    bindings (pool, dyndep) while the statement is still being put together."""
+    out = []
+    keys = ["pool", "description", "depfile", "rspfile", "rspfile_content", "dyndep", "deps", "restat", "generator", "msvc_deps_prefix", "command"]
+    lines = []
+    for no in (1, 2):
+        for nio in (0, 1, 2):
+            for ni in (0, 1, 2):
+                for nii in (0, 1):
+                    for noi in (0, 2):
+                        l = "build " + " ".join("o%d" % k for k in range(no))
+                        if nio:
+                            l += " | " + " ".join("io%d" % k for k in range(nio))
+                        l += ": r " + " ".join("i%d" % k for k in range(ni))
+                        if nii:
+                            l += " | ii0"
+                        if noi:
+                            l += " || oi0 oi1"
+                        if (no + nio + ni) % 2:
+                            l += " |@ v0"
+                        lines.append(l)
+    n = 0
+    for key in keys:
+        for var in ("$in", "$in_newline", "$out", "${in}x${out}", "$description", "$depfile"):
+            for l in lines[n % 3::3]:
+                m = "pool $\n  depth = 1\n" if False else ""
+                m += "rule r\n"
+                if key != "command":
+                    m += "  command = c\n"
+                if var in ("$description", "$depfile"):
+                    if key in ("description", "depfile"):
+                        continue
+                    m += "  %s = $out $in\n" % var[1:]
+                m += "  %s = %s\n" % (key, var)
+                if key == "rspfile":
+                    m += "  rspfile_content = $in\n"
+                if key == "rspfile_content":
+                    m += "  rspfile = $out.rsp\n"
+                m += l + "\n"
+                out.append(m)
+            n += 1
+    return out
+
+
+HAND_MANIFESTS += _binding_manifests()
+
+
 def mutate(rng, data, n=1):
     d = bytearray(data)
     for _ in range(n):
